@@ -22,11 +22,16 @@ impl Key {
             super::nd::bound_exceeded("key longer than KMAX");
             return k;
         }
-        let mut i = 0;
-        while i < s.len() {
-            let shift = 8 * (15 - (i % 16));
-            k.w[i / 16] |= (s[i] as u128) << shift;
-            i += 1;
+        // one bulk copy into a zeroed buffer, then three word loads: no per-byte loop whose
+        // accumulated expression the simplifier has to re-walk 48 times
+        let mut buf = [0u8; KMAX];
+        buf[..s.len()].copy_from_slice(s);
+        let mut j = 0;
+        while j < KW {
+            let mut wbytes = [0u8; 16];
+            wbytes.copy_from_slice(&buf[16 * j..16 * j + 16]);
+            k.w[j] = u128::from_be_bytes(wbytes);
+            j += 1;
         }
         k.len = s.len();
         k
